@@ -221,6 +221,9 @@ def check_case(spec, events):
         calls = [t for t in e["trace"] if not t.startswith("tclone") and not t.startswith("drop")]
         if len(calls) != nterm or any(not t.startswith(fn + ":") for t in calls):
             bad.append((f"call-count:{op}:{form}", f"{nterm} x {fn}", calls))
+        elif any(t != f"{fn}:{form}" for t in calls):
+            # a borrowed operand lends its fields, an owned one gives them: `T op &T` applies `F op &F` to the fields
+            bad.append((f"field-operator-form:{op}:{form}", f"{fn}:{form}", calls))
         if any(t.startswith("tclone") for t in e["trace"]):
             bad.append((f"clone-in-fieldwise-op:{op}:{form}", "no clone", e["trace"]))
         if e["da"] and e["da"] != operand_dump(spec, "a", pair):
